@@ -3,6 +3,7 @@ package props
 import (
 	"fmt"
 	"go/token"
+	"sort"
 	"strings"
 
 	"golang.org/x/tools/go/ssa"
@@ -301,10 +302,65 @@ func runC22(c *eng.Ctx) {
 	}
 	c.Expect("ORDER-read", 6)
 	_ = fmt.Sprint
+
+	// ---------------------------------------------------------------- APPEND-entry
+	// an accepted event is stored: its encoded bytes go behind a 4-byte size prefix at the current position, the
+	// position is remembered in the index and advanced by size + 4
+	if fn := c.NeedFunc("weed/util/log_buffer", "(*LogBuffer).AddToBuffer"); fn != nil {
+		enc := eng.Find(fn, eng.PlainCallTo("proto.Marshal"))
+		if len(enc) != 1 {
+			c.Undecided("APPEND-entry", eng.FuncName(fn), fn.Pos(), "entry encoding not found")
+		} else {
+			data := eng.ResultOf(enc[0], 0)
+			intoBuf := func(call *ssa.Call) bool {
+				return eng.Mentions(call.Call.Args[0], 4, func(v ssa.Value) bool { return eng.IsField(v, "LogBuffer.buf") })
+			}
+			var prefixCopy, dataCopy bool
+			for _, in := range eng.Find(fn, eng.PlainCallTo("builtin.copy")) {
+				call := in.(*ssa.Call)
+				if !intoBuf(call) || !eng.Dominates(enc[0], in) {
+					continue
+				}
+				if eng.Mentions(call.Call.Args[1], 4, func(v ssa.Value) bool { return v == data }) {
+					dataCopy = true
+				}
+				if eng.MentionsField(call.Call.Args[1], "LogBuffer.sizeBuf") {
+					prefixCopy = true
+				}
+			}
+			c.Ob("APPEND-entry", eng.FuncName(fn)+" bytes-stored", dataCopy && prefixCopy, enc[0].Pos(), "the encoded entry and its size prefix are copied into the buffer")
+			okIdx := false
+			for _, st := range eng.Find(fn, eng.StoreToField("LogBuffer.idx")) {
+				if call, ok := eng.Unwrap(st.(*ssa.Store).Val).(*ssa.Call); ok && eng.CalleeIs(call, "builtin.append") {
+					for _, el := range eng.VarargValues(call.Call.Args[1]) {
+						if eng.IsField(el, "LogBuffer.pos") {
+							okIdx = true
+						}
+					}
+				}
+			}
+			c.Ob("APPEND-entry", eng.FuncName(fn)+" position-indexed", okIdx, enc[0].Pos(), "the entry's position is appended to the index the reader searches")
+			okPos := false
+			for _, st := range eng.Find(fn, eng.StoreToField("LogBuffer.pos")) {
+				terms := eng.LinearTerms(st.(*ssa.Store).Val)
+				if len(terms) == 3 && strings.Join(terms, " ") == strings.Join(sortedCopy([]string{"+.pos", "+4", "+len(" + eng.ExprShape(data) + ")"}), " ") {
+					okPos = true
+				}
+			}
+			c.Ob("APPEND-entry", eng.FuncName(fn)+" position-advanced", okPos, enc[0].Pos(), "the position advances by the entry's size plus the 4-byte prefix")
+		}
+	}
+	c.Expect("APPEND-entry", 3)
 }
 
 // isEventTs: the loop/phi value of the event timestamp variable (parameter possibly replaced by the clock value).
 func isEventTs(v ssa.Value) bool {
 	phi, ok := v.(*ssa.Phi)
 	return ok && phi.Comment == "eventTsNs"
+}
+
+func sortedCopy(a []string) []string {
+	b := append([]string{}, a...)
+	sort.Strings(b)
+	return b
 }
